@@ -5,6 +5,7 @@ package c08
 import (
 	"context"
 	"fmt"
+	"math/rand"
 	"strings"
 	"sync"
 	"testing"
@@ -236,6 +237,9 @@ type fault struct {
 	Position  int    `json:"position"` // 1-based index of the client message (pings excluded) the behaviour applies to
 	Behaviour string `json:"behaviour"`
 	Class     string `json:"message_class,omitempty"`
+	// thorough tier: a second fault at a later position of the same scenario
+	Position2  int    `json:"position2,omitempty"`
+	Behaviour2 string `json:"behaviour2,omitempty"`
 }
 
 func isPing(m message.Message) bool {
@@ -252,7 +256,7 @@ func runScenario(f fault) (e *env, trace []string, probeErr string, censusLeft [
 	e = &env{w: w}
 	var mu sync.Mutex
 	pos := 0
-	fired := false
+	fired, fired2 := false, false
 	probing := false // set when the scenario is over: faults and the trace belong to the scenario phase only
 	w.B.OnMsg = func(lc *broker.LinkCtx, m message.Message, unrel bool) bool {
 		if isPing(m) {
@@ -266,9 +270,12 @@ func runScenario(f fault) (e *env, trace []string, probeErr string, censusLeft [
 		pos++
 		p := pos
 		trace = append(trace, fmt.Sprintf("%T", m)[len("*message."):])
+		behaviour := f.Behaviour
 		hit := !fired && p == f.Position && f.Behaviour != "answer"
 		if hit {
 			fired = true
+		} else if !fired2 && f.Position2 > 0 && p == f.Position2 {
+			hit, fired2, behaviour = true, true, f.Behaviour2
 		}
 		mu.Unlock()
 		if !hit {
@@ -280,7 +287,7 @@ func runScenario(f fault) (e *env, trace []string, probeErr string, censusLeft [
 			}
 			return false
 		}
-		switch f.Behaviour {
+		switch behaviour {
 		case "drop":
 			return true
 		case "delay":
@@ -360,7 +367,7 @@ func runScenario(f fault) (e *env, trace []string, probeErr string, censusLeft [
 	mu.Lock()
 	probing = true
 	mu.Unlock()
-	if f.Behaviour == "delay" {
+	if f.Behaviour == "delay" || f.Behaviour2 == "delay" {
 		// let the withheld answer arrive (late) before probing: a late answer must not disturb later calls
 		time.Sleep(lateDelay + time.Second)
 	}
@@ -441,8 +448,38 @@ func buildPlan(t *testing.T) []fault {
 
 func TestC08NoHang(t *testing.T) {
 	faults := buildPlan(t)
-	meta := vrun.Meta{Property: "C08", Workload: "TestC08NoHang", Total: len(faults), Exhaustive: true,
-		Rule: "fault enumeration: 11 API scenarios (open/write/flush/close of both stream kinds, reads, metadata, the three call APIs, receive inboxes, connection close with streams open) x every position of the scenario's fault-free client message trace x broker behaviour {drop, delay beyond the bound, misaddress by request id, by stream alias, by unsubscribed source node, disconnect in 4 modes (sever, write-fail, read-EOF, blackhole)}; every call carries a 5 s context deadline (virtual), close timeout 2 s, keepalive 1 s + 1 s. Oracle on the virtual clock: each call returns no later than its deadline + 1 ms; afterwards, with a cooperative broker, a probe set (open/write/close upstream, open/close downstream, metadata) completes within 120 virtual seconds; a case that stalls in real time with a library goroutine parked on a mutex is a leaked lock. non-trivial = the fault fired (position reached); distinct = (scenario, position, behaviour)",
+	if env := vrun.LoadEnv(); env.Thorough() {
+		// pairs of faults inside one scenario, drawn from the seed (the single-fault grid above stays complete)
+		base := append([]fault(nil), faults...)
+		byScenario := map[string][]fault{}
+		for _, f := range base {
+			if f.Position > 0 {
+				byScenario[f.Scenario] = append(byScenario[f.Scenario], f)
+			}
+		}
+		r := rand.New(rand.NewSource(vrun.CaseSeed(env.Seed, "c08-pairs", 0)))
+		for len(faults) < len(base)+6000 {
+			name := scenarioNames[r.Intn(len(scenarioNames))]
+			l := byScenario[name]
+			if len(l) < 2 {
+				continue
+			}
+			a, b := l[r.Intn(len(l))], l[r.Intn(len(l))]
+			if a.Position == b.Position {
+				continue
+			}
+			if a.Position > b.Position {
+				a, b = b, a
+			}
+			if strings.HasPrefix(a.Behaviour, "disconnect") && strings.HasPrefix(b.Behaviour, "disconnect") {
+				continue // positions after a disconnect belong to another link incarnation: keep the first fault non-fatal or the second
+			}
+			a.Position2, a.Behaviour2 = b.Position, b.Behaviour
+			faults = append(faults, a)
+		}
+	}
+	meta := vrun.Meta{Property: "C08", Workload: "TestC08NoHang", Total: len(faults), Exhaustive: !vrun.LoadEnv().Thorough(),
+		Rule: "fault enumeration: 11 API scenarios (open/write/flush/close of both stream kinds, reads, metadata, the three call APIs, receive inboxes, connection close with streams open) x every position of the scenario's fault-free client message trace x broker behaviour {drop, delay beyond the bound, misaddress by request id, by stream alias, by unsubscribed source node, disconnect in 4 modes (sever, write-fail, read-EOF, blackhole)}; every call carries a 5 s context deadline (virtual), close timeout 2 s, keepalive 1 s + 1 s. Oracle on the virtual clock: each call returns no later than its deadline + 1 ms; afterwards, with a cooperative broker, a probe set (open/write/close upstream, open/close downstream, metadata) completes within 120 virtual seconds; a case that stalls in real time with a library goroutine parked on a mutex is a leaked lock. the thorough tier adds 6000 seed-drawn PAIRS of faults at two positions of one scenario to the complete single-fault grid. non-trivial = the fault fired (position reached); distinct = (scenario, positions, behaviours)",
 		Assumptions: []string{"the governing bound of every judged call is its own context deadline (calls without a deadline on a live connection have no bound and are not judged)",
 			"the path-complete lock-release lemma of the statement is out of reach of runtime monitoring: only locks leaked on executed paths are detected"}}
 	vrun.Loop(t, meta, 0, func(c *vrun.Case) vrun.Result {
@@ -496,7 +533,7 @@ func judge(f fault) vrun.Result {
 			map[string]any{"fault": f, "probe": probeErr, "calls": e.calls})
 	}
 	reached := f.Behaviour == "answer" || len(trace) >= f.Position
-	r := vrun.Hold(fmt.Sprintf("%s|%d|%s", f.Scenario, f.Position, f.Behaviour), reached)
+	r := vrun.Hold(fmt.Sprintf("%s|%d|%s|%d|%s", f.Scenario, f.Position, f.Behaviour, f.Position2, f.Behaviour2), reached)
 	r.Stat("api_calls_judged", int64(len(e.calls)))
 	r.Stat("client_messages", int64(len(trace)))
 	r.AddSet("message_classes_faulted", f.Class)
